@@ -35,6 +35,12 @@ pub enum StrategySpec {
     Pct { depth: u32, est_len: u32 },
     /// `victim` runs only when nothing else can; others as `Random`.
     Starve { victim: usize, switch_permille: u32 },
+    /// As `Random` until the run's `from_step`-th scheduling step; from then
+    /// on `victim` runs only when nothing else can — one long preemption of
+    /// one thread at an arbitrary point (the shape of most narrow-window
+    /// races: a thread held up between two of its operations while the others
+    /// run on).
+    Stall { victim: usize, from_step: u32, switch_permille: u32 },
     /// Replay: explicit deviations `(decision_index, tid)` from run-to-block.
     Deviations { list: Vec<(usize, usize)> },
     /// Replay: the full recorded choice list; run-to-block once exhausted.
@@ -50,6 +56,7 @@ impl StrategySpec {
             }
             StrategySpec::Pct { depth, .. } => format!("pct({depth})"),
             StrategySpec::Starve { victim, .. } => format!("starve({victim})"),
+            StrategySpec::Stall { victim, from_step, .. } => format!("stall({victim}@{from_step})"),
             StrategySpec::Deviations { list } => {
                 format!("deviations({})", list.len())
             }
@@ -65,6 +72,7 @@ impl StrategySpec {
             StrategySpec::Random { .. } => "random",
             StrategySpec::Pct { .. } => "pct",
             StrategySpec::Starve { .. } => "starve",
+            StrategySpec::Stall { .. } => "stall",
             StrategySpec::Deviations { .. } => "replay",
             StrategySpec::Recorded { .. } => "replay",
         }
@@ -77,12 +85,17 @@ impl StrategySpec {
             5..=49 => StrategySpec::Random {
                 switch_permille: *rng.pick(&[50, 100, 200, 350, 500, 750, 1000]),
             },
-            50..=84 => StrategySpec::Pct {
+            50..=79 => StrategySpec::Pct {
                 depth: rng.range(1, 3) as u32,
                 est_len: est_len.max(8),
             },
-            _ => StrategySpec::Starve {
+            80..=89 => StrategySpec::Starve {
                 victim: rng.usize_below(max_threads.max(1)),
+                switch_permille: *rng.pick(&[100, 350, 750]),
+            },
+            _ => StrategySpec::Stall {
+                victim: rng.usize_below(max_threads.max(1)),
+                from_step: rng.below(est_len.max(8) as u64) as u32,
                 switch_permille: *rng.pick(&[100, 350, 750]),
             },
         }
@@ -94,6 +107,7 @@ pub(crate) enum Strategy {
     Random { rng: Rng, switch_permille: u32 },
     Pct { rng: Rng, prio: Vec<i64>, change_points: Vec<usize>, next_low: i64 },
     Starve { rng: Rng, victim: usize, switch_permille: u32 },
+    Stall { rng: Rng, victim: usize, from_step: usize, switch_permille: u32 },
     Deviations { list: Vec<(usize, usize)>, pos: usize },
     Recorded { choices: Vec<u8>, pos: usize },
 }
@@ -124,6 +138,12 @@ impl Strategy {
                 victim: *victim,
                 switch_permille: *switch_permille,
             },
+            StrategySpec::Stall { victim, from_step, switch_permille } => Strategy::Stall {
+                rng,
+                victim: *victim,
+                from_step: *from_step as usize,
+                switch_permille: *switch_permille,
+            },
             StrategySpec::Deviations { list } => {
                 let mut list = list.clone();
                 list.sort_unstable();
@@ -144,6 +164,10 @@ impl Strategy {
             }
             Strategy::Starve { rng, victim, switch_permille } => {
                 Pick::Tid(random_pick(rng, *switch_permille, c, Some(*victim)))
+            }
+            Strategy::Stall { rng, victim, from_step, switch_permille } => {
+                let v = if c.step >= *from_step { Some(*victim) } else { None };
+                Pick::Tid(random_pick(rng, *switch_permille, c, v))
             }
             Strategy::Pct { rng, prio, change_points, next_low } => {
                 let max_tid = *c.enabled.last().unwrap().max(&c.current);
